@@ -67,14 +67,19 @@ def _statemc(props_hint, tier, asan_too=True, raw_too=False, limits=False):
     return jobs
 
 
-def _edits(tier, flavour="plain"):
-    """E1 cutmc edits: base exchanges with <= E token-level edits under every schedule with <= P preemptions (defaults: quick E=1 P=1, thorough E=2 P=2/1)"""
-    return [J("cutmc", flavour, ["--mode", "edits"])]
+def _edits(tier, flavour="plain", cfgs=(0,), devs=False):
+    """E1 cutmc edits: base exchanges with <= E token-level edits under every schedule with <= P preemptions (defaults: quick E=1 P=1,
+    thorough E=2 P=2/1), one job per configuration of the statemc menu; devs: additionally every execution is repeated with one callback
+    deviation (DECLINED / STOP / ERROR at the n-th callback, every n)"""
+    jobs = [J("cutmc", flavour, ["--mode", "edits", "--cfg", str(c)]) for c in cfgs]
+    if devs:
+        jobs.append(J("cutmc", flavour, ["--mode", "edits", "--cfg", "0", "--devs", "1", "--edits", "1", "--preempt", "1" if tier == "quick" else "2"]))
+    return jobs
 
 
-_EDITS_RULE = ("; cutmc edits: 20 base exchanges (plain, bodies, chunked+trailers, HEAD, PUT, 100-continue, 0.9, pipelines, CONNECT accepted/refused, upgrade, close-delimited, "
-               "folded headers, urlencoded, multipart, invalid / valid gzip) with <= E token-level edits (insert / delete / duplicate / replace by a pool token, truncate, stream gap) under every "
-               "schedule of the two token lists with <= P preemptions")
+_EDITS_RULE = ("; cutmc edits: 22 base exchanges (plain, bodies, chunked+trailers, HEAD, PUT, 100-continue, 0.9, pipelines, CONNECT accepted/refused, upgrade, close-delimited, "
+               "folded headers, urlencoded, multipart, invalid / valid gzip) with <= E token-level edits (insert / delete / duplicate / replace by a pool token, truncate after / inside a token, stream gap) under every "
+               "schedule of the two token lists with <= P preemptions, per configuration of the statemc menu; where stated, every execution again with one callback deviation at every callback ordinal")
 
 
 _STATEMC_RULE = ("E2 statemc: breadth-first search over event histories (request/response tokens of the micro or macro alphabet, stream gaps, close, "
@@ -96,7 +101,7 @@ CHECKS["C05"] = {
     "bounds": {"quick": "micro depth 4 (2 cfgs), macro depth 5 (2 cfgs), micro depth 3 with one callback deviation", "thorough": "micro depth 5, macro depth 7/6, deviations to depth 4, 4 cfgs"},
     "mc_explanation": "states/transitions are those of the implementation itself (no model): the transition function is htp_connp_req_data/res_data/close on a replayed history",
     "assumptions": ["token alphabets of mc/statemc.c", "exact canonical state (DESIGN §4.3)"],
-    "jobs": lambda tier: _statemc("C05", tier, asan_too=False) + _edits(tier),
+    "jobs": lambda tier: _statemc("C05", tier, asan_too=False) + _edits(tier, cfgs=(0, 1)),
 }
 
 
@@ -119,7 +124,7 @@ CHECKS["C06"] = {
     "jobs": lambda tier: [J("cutmc", "plain", ["--mode", "body"]),
                           J("cutmc", "asan", ["--mode", "body", "--maxlen", "2" if tier == "quick" else "3"]),
                           J("statemc", "plain", ["--alphabet", "micro", "--depth", "4" if tier == "quick" else "5", "--cfg", "0"]),
-                          J("statemc", "plain", ["--alphabet", "macro", "--depth", "5" if tier == "quick" else "6", "--cfg", "0"])] + _edits(tier),
+                          J("statemc", "plain", ["--alphabet", "macro", "--depth", "5" if tier == "quick" else "6", "--cfg", "0"])] + _edits(tier, cfgs=(0, 3)),
 }
 
 
@@ -175,7 +180,7 @@ CHECKS["C09"] = {
     "bounds": {"quick": "statemc micro 4 / macro 5, deviations depth 3, raw-order micro 3 / macro 4; C04 N<=3 and C16 schedules", "thorough": "one level deeper everywhere"},
     "mc_explanation": "states/transitions of the implementation itself; stateless workloads add distinct callback traces / data calls",
     "assumptions": ["token alphabets of mc/statemc.c"],
-    "jobs": lambda tier: _statemc("C09", tier, asan_too=False, raw_too=True) + [J("cutmc", "plain", ["--mode", "pair"]), J("cutmc", "plain", ["--mode", "tunnel"])] + _edits(tier),
+    "jobs": lambda tier: _statemc("C09", tier, asan_too=False, raw_too=True) + [J("cutmc", "plain", ["--mode", "pair"]), J("cutmc", "plain", ["--mode", "tunnel"])] + _edits(tier, devs=True),
 }
 
 
@@ -272,7 +277,7 @@ CHECKS["C10"] = {
     "jobs": lambda tier: [J("statemc", "plain", ["--alphabet", "micro", "--depth", "4" if tier == "quick" else "5", "--cfg", "2"]),
                           J("statemc", "plain", ["--alphabet", "micro", "--depth", "3" if tier == "quick" else "4", "--cfg", "5"]),
                           J("statemc", "plain", ["--alphabet", "macro", "--depth", "5" if tier == "quick" else "6", "--cfg", "2"]),
-                          J("cutmc", "plain", ["--mode", "limits"]), J("cutmc", "asan", ["--mode", "limits", "--steady-n", "200"])] + _edits(tier),
+                          J("cutmc", "plain", ["--mode", "limits"]), J("cutmc", "asan", ["--mode", "limits", "--steady-n", "200"])] + _edits(tier, cfgs=(2, 5)),
 }
 
 CHECKS["C01"] = {
@@ -311,7 +316,7 @@ def _c01_jobs(tier):
         J("cutmc", "asan", ["--mode", "corpus"]),
         # labelled scenario: TRANSACTION_COMPLETE destroys its own transaction (auto-destroy off)
         J("statemc", "asan", ["--alphabet", "macro", "--depth", d("4", "5"), "--cfg", "0", "--devdepth", d("4", "5"), "--selfdestroy"]),
-    ] + _edits(tier, "asan")
+    ] + _edits(tier, "asan", cfgs=(0, 1) if q else (0, 1, 3, 5), devs=not q)
     if not q:
         jobs += [J("statemc", "asan", ["--alphabet", "micro", "--depth", "3", "--cfg", str(c), "--devdepth", "2"]) for c in (3, 4, 5, 9, 13)]
     return jobs
